@@ -399,6 +399,10 @@ func (e *c08Env) scenarioTimed(rng *rand.Rand, lease string) {
 }
 
 func c08Child(ctx *runCtx, spec string) {
+	if strings.HasPrefix(spec, "evict ") {
+		c08EvictChild(ctx, spec)
+		return
+	}
 	var n, r, rounds int
 	var seed int64
 	fmt.Sscanf(spec, "N=%d R=%d rounds=%d seed=%d", &n, &r, &rounds, &seed)
@@ -438,6 +442,8 @@ func c08Child(ctx *runCtx, spec string) {
 		run(func(rng *rand.Rand) { env.scenarioTimed(rng, "none") }, s+5)
 		run(func(rng *rand.Rand) { env.scenarioTimed(rng, "longer") }, s+6)
 		run(func(rng *rand.Rand) { env.scenarioTimed(rng, "shorter") }, s+7)
+		run(env.scenarioWaiterTimeout, s+8)
+		run(env.scenarioWaiterTimeout, s+9)
 	}
 	wg.Wait()
 	if c.Fingerprint() != fp {
@@ -465,6 +471,13 @@ func c08Run(ctx *runCtx) int {
 		batches = append(batches, batch{Spec: fmt.Sprintf("N=%d R=%d rounds=%d seed=%d", nr[0], nr[1], rounds, ctx.seed*100+int64(i)), Timeout: 20 * time.Minute})
 	}
 	batches = append(batches, batch{Spec: fmt.Sprintf("N=3 R=2 rounds=%d seed=%d", (rounds+3)/4, ctx.seed*100+50), Timeout: 20 * time.Minute, Race: true})
+	er := 40
+	if ctx.tier == "thorough" {
+		er = 300
+	}
+	batches = append(batches,
+		batch{Spec: fmt.Sprintf("evict N=2 R=2 workers=96 rounds=%d seed=%d", er, ctx.seed*100+60), Timeout: 20 * time.Minute},
+		batch{Spec: fmt.Sprintf("evict N=3 R=1 workers=64 rounds=%d seed=%d", er, ctx.seed*100+61), Timeout: 20 * time.Minute})
 	runBatches(ctx, batches, 4, func(b batch, res batchResult, tail string) {
 		ctx.rep.Violate("c08|member-crashed-or-hung", fmt.Sprintf("child %s died (exit %d timeout=%v): %s", b.Spec, res.ExitCode, res.TimedOut, lastLines(tail, 12)), map[string]interface{}{"batch": b.Spec})
 	})
